@@ -92,7 +92,7 @@ def run(ctx, rep):
             ok = f.key in auth
             detail = "Ok only via %s" % ", ".join(sorted({a.rpath.split("::")[-1] + "@" + str(a.line()) for a, k in r.atoms})) if ok else (
                 "an Ok exit is reachable without a successful constant-time comparison: %s" % (
-                    "; ".join("exit %s via %s" % (f.loc(b), cm.fmt_path(f, p)) for b, p in r.bad_exits) or "no comparison found"))
+                    "; ".join("exit %s via %s" % (views.get(f.key, f).loc(b), cm.fmt_path(views.get(f.key, f), p)) for b, p in r.bad_exits) or "no comparison found"))
             rep.ob("AUTH", name, ok, detail, loc=f.loc())
             # locate the root comparison(s) under this verify function
             roots = [g for g in (views.get(k) or inline(prog, prog.by_key[k]) for k in prog.reach_fns([f])) if prim_atoms(g) and g.key in auth]
